@@ -101,7 +101,7 @@ def gen_content(rng, size, pool):
 
 NAME_ALPHABETS = [
     'abcdefghijklmnopqrstuvwxyz0123456789',
-    'abc XYZ-_.+=&%#@!~()[]{}\'",;',
+    'abc XYZ-_.+=&%#@!~()[]{}\'",;\\:*?<>|',      # (a backslash, a colon, ... are ordinary characters of a POSIX file name)
     'äöüßéèñçøπλж日本語한국어🙂',
 ]
 
@@ -284,3 +284,19 @@ class ShortReads(_io.BytesIO):
         if k < min(n, left):
             self.short += 1
         return super().read(k)
+
+
+def look_alike_passwords(pw):
+    """Pass-phrases a human or a normalising library would take for pw but that are different byte strings:
+    other Unicode normal forms (canonical and compatibility), other letter case of one letter."""
+    import unicodedata
+    out = []
+    try:
+        t = pw.decode('utf-8')
+    except UnicodeDecodeError:
+        return out
+    for form in ('NFKC', 'NFC', 'NFD', 'NFKD'):
+        v = unicodedata.normalize(form, t).encode('utf-8')
+        if v != pw and v not in out:
+            out.append(v)
+    return out
